@@ -363,7 +363,7 @@ fn std_inline(r: &mut Rng, depth: usize) -> String {
         6 => format!("*{}*", std_words(r)),
         7 => format!("**{}**", std_words(r)),
         8 => r.ps(&["_x y_", "**_a_**", "*__a__*", "***b***", "*a **b** c*"]).to_string(),
-        9 => format!("`{}`", r.ps(&["code", "a b", "a*b_c", "x|y", "<b>", "a``b", "&amp;", " a ", "\\"])),
+        9 => format!("`{}`", r.ps(&["code", "a b", "a*b_c", "x|y", "<b>", "a``b", "&amp;", " a ", "\\", "grep -E \"a|b\" f", "echo `date", "`tick"])),
         10 => format!("``{}``", r.ps(&["a`b", "`", "x"])),
         11 => format!("[{}]({})", r.ps(&["text", "a *b* c", "`code`", "x y"]), r.ps(&["/u", "http://a.b/c?d=e&f=g", "<a b>", "#frag", "/p(q)", ""])),
         12 => format!("[{}](/u \"{}\")", std_words(r), r.ps(&["t", "a b", "x'y", "q&amp;r"])),
@@ -407,7 +407,9 @@ fn std_block(r: &mut Rng, depth: usize) -> String {
         6 => r.ps(&["---\n", "***\n", "___\n"]).to_string(),
         7 => {
             let f = r.ps(&["```", "~~~", "````"]);
-            format!("{}{}\n{}\n{}\n", f, r.ps(&["", "rs", "a b"]), std_text(r, 6), f)
+            // sometimes a second content line after a line of white space only (auto-indent residue)
+            let body = if r.chance(1, 3) { format!("{}\n{}\n{}", std_text(r, 4), r.ps(&["  ", "      ", "    ", " ", "\t"]), std_text(r, 4)) } else { std_text(r, 6) };
+            format!("{}{}\n{}\n{}\n", f, r.ps(&["", "rs", "a b"]), body, f)
         }
         8 => format!("    {}\n", std_text(r, 6).trim_start()),
         9 => r.ps(&["<div>\nx *y*\n</div>\n", "<!-- c -->\n", "<p>\nq\n</p>\n"]).to_string(),
